@@ -19,6 +19,8 @@ PAYLOADS = {
     'tup': ('(u8, bool)', ['(0, false)', '(0, true)', '(1, false)']),
     'arr': ('[u8; 2]', ['[0, 0]', '[0, 1]', '[1, 0]']),
     'tup1': ('(u8,)', ['(0,)', '(200,)']),
+    'nan': ('N', ['N(0)', 'N(9)', 'N(1)']),
+    'f32': ('f32', ['0.0', 'f32::NAN', '-0.0', '1.5']),
     'otup': ('Option<(bool, u8)>', ['None', 'Some((false, 9))', 'Some((true, 0))']),
 }
 RANGE = {'u8': (0, 255), 'i8': (-128, 127), 'u16': (0, 65535), 'i16': (-32768, 32767), 'u32': (0, 2**32 - 1), 'i32': (-2**31, 2**31 - 1),
@@ -177,7 +179,7 @@ def generate(tier):
                 for cfg in (cfgs if tier != 'quick' else [cfgs[k % 4], cfgs[(k + 1) % 4]]):
                     cases.append(build([('u', [])] * v, repr, discs, cfg))
     # B: single-variant enums with a payload
-    plist = list(PAYLOADS)
+    plist = [p_ for p_ in PAYLOADS if p_ not in ('nan', 'f32')]
     for p in plist:
         for var in (('t', [p]), ('n', [p]), ('t', [p, 'u8']), ('t', ['bool', p])):
             for repr in (None, 'C', 'u8', 'transparent', 'i64', 'align(8)'):
@@ -259,6 +261,12 @@ def generate(tier):
         for cfg in cfgs:
             for methods in (False, True):
                 cases.append(build(vs, None, [None] * len(vs), cfg, methods=methods))
+    # payloads that are incomparable with themselves (a NaN-like scalar, f32): PartialOrd only; every value is also compared with itself through the same reference,
+    # so an answer taken from the operands' identity instead of their fields shows
+    for nanp in ('nan', 'f32'):
+        for vs in ([('t', [nanp])], [('n', ['u8', nanp]), ('u', [])], [('u', []), ('t', [nanp, 'u8']), ('n', [nanp])], [('t', ['unit', nanp])]):
+            for methods in (False,):
+                cases.append(build(vs, None, [None] * len(vs), 'PO', laws=False, methods=methods))
     # field names that differ by the prefixes the templates use for their bindings (x, _x, __x, ...), template locals as field names, raw identifiers
     from .common import underscorify, rawify, localsify
     named = [x for x in cases if x is not None and 'n(' in x.key and len(x.body) < 20000]
